@@ -102,3 +102,41 @@ def run(ctx, F):
     okg = bool(gv) and all(any("contains_key" in show(p.tree) for p in guards(vm, c.bb)) and len(guards(vm, c.bb)) == 1 for c in gv)
     ctx.judge(okg, "C25.all-pairs", "global specs are verified on the first registration", expected="verify_global_specs guarded only by first_call", found=str([guard_strs(vm, c.bb) for c in gv])[:200],
               where=where(vm), key="C25.all-pairs|global-first")
+    _all_specs(ctx, F)
+
+
+def _all_specs(ctx, F):
+    """C25.all-specs: what the pairwise check is applied to. Every registered local spec takes part: duplicates are removed only by
+    whole-spec equality, and one checker accumulates the specs of all spaces of a plan."""
+    SS = "util::metadata::side_metadata::sanity::SideMetadataSanity::"
+    f = F.fn(SS + "get_all_specs")
+    dd = [c for c in live_calls(f) if c.name in ("dedup", "dedup_by", "dedup_by_key", "retain", "retain_mut", "truncate", "drain", "sort_by_key", "from_iter", "remove", "pop", "swap_remove")]
+    full = [c for c in dd if (c.name == "from_iter" and c.ga and re.match(r"^std::collections::(HashSet|BTreeSet)<util::metadata::side_metadata::global::SideMetadataSpec>$", c.ga[0])) or c.name == "dedup"]
+    lossy = [c for c in dd if c not in full and c.name != "sort_by_key"]
+    ctx.judge(len(full) >= 1 and not lossy, "C25.all-specs", "get_all_specs drops a spec only when an identical spec is already present",
+              expected="deduplication by whole-spec equality (HashSet<SideMetadataSpec> / Vec::dedup), no key-based dedup, retain or truncation", found=str([(c.name, c.ga[:1]) for c in dd])[:200], where=where(f),
+              key="C25.all-specs|dedup")
+    ap = [c for c in live_calls(f) if c.name in ("append", "extend", "extend_from_slice", "push")]
+    it = [c for c in live_calls(f) if c.name == "iter" and "specs_sanity_map" in show(strip(f.flow.arg_tree(c, 0)))]
+    ctx.judge(len(ap) >= 1 and len(it) == 1 and all(any("Iterator>::next" in show(p.tree) and p.val == "Some" for p in guards(f, c.bb)) for c in ap), "C25.all-specs",
+              "get_all_specs gathers the specs of every registered policy", expected="append inside the loop over specs_sanity_map", found="appends=%d iters=%d" % (len(ap), len(it)), where=where(f),
+              key="C25.all-specs|gather")
+    rts = [show(strip(t)) for _, t in f.flow.return_trees()]
+    ctx.judge(bool(rts) and all(("from_iter" in r or "dedup" in r or r.startswith("Vec::new")) for r in rts), "C25.all-specs", "the gathered list is what is returned", expected="collect of the deduplicated set",
+              found=str(rts)[:200], where=where(f), key="C25.all-specs|ret")
+    # one checker per plan
+    g = F.fn("plan::global::Plan::verify_side_metadata_sanity")
+    news = live_calls(g, q=SS + "new")
+    fes = live_calls(g, name="for_each_space")
+    cls = closures_of(F, g)
+    okc = len(news) == 1 and len(fes) == 1 and len(cls) == 1 and g.cfg.dominates(news[0].bb, fes[0].bb)
+    found = "new() in fn body=%d for_each_space=%d closures=%d" % (len(news), len(fes), len(cls))
+    if okc:
+        vs = [c for c in live_calls(cls[0]) if c.name == "verify_side_metadata_sanity"]
+        inner_new = live_calls(cls[0], q=SS + "new")
+        okc = len(vs) == 1 and not inner_new and strip(cls[0].flow.arg_tree(vs[0], 1)) and strip(cls[0].flow.arg_tree(vs[0], 1))[0] == "upvar"
+        found += " per-space verify calls=%d checker=%s" % (len(vs), show(strip(cls[0].flow.arg_tree(vs[0], 1))) if vs else None)
+    ctx.judge(okc, "C25.all-specs", "one SideMetadataSanity accumulates the specs of all spaces of the plan", expected="checker created once before for_each_space and captured by the per-space closure",
+              found=found, where=where(g), key="C25.all-specs|one-checker")
+    allowed = {"plan::global::Plan::verify_side_metadata_sanity": "the plan-wide checker", "<util::metadata::side_metadata::sanity::SideMetadataSanity as std::default::Default>::default": "Default impl"}
+    check_callers(ctx, F, "C25.all-specs", SS + "new", allowed, min_sites=1)
